@@ -10,9 +10,14 @@ appends exactly the next offset. `C03_stream_keeps_acked_prefix_equal` shows tha
 whose log is *compatible* with the leader's (one is a prefix of the other — what the attach step has to
 establish), the stream keeps the logs compatible, only ever extends the follower's log, and everything at
 or below the acknowledged offset is the leader's entry, for every leader log, every starting point and
-any number of re-deliveries. `C03_attach_*` show that the attach step (`truncateFollowerIfNeeded`)
-establishes compatibility from the log-matching property, and `C03_duplicate_ack_needs_compatibility`
-is the divergence that results when it does not (known finding D-40 is such a case).
+any number of re-deliveries. `C03_attach_compatible_partial` shows that the attach step
+(`truncateFollowerIfNeeded`) establishes compatibility from the log-matching property **when the leader's
+last entry at or below the follower's head term is of that very term (or there is none)**; in the remaining
+case — the leader holds no entry of the follower's head term but entries of lower terms further up — the
+statement is false of the model and of the code: `C03_truncation_keeps_foreign_entries` and
+`C03_follower_diverges_below_acknowledged_offset` are the kernel-checked witnesses (known finding D-44,
+replayed on the implementation by corpus/C03/d44-*.ops). `C03_duplicate_ack_needs_compatibility` is the
+divergence that results from an incompatible start (known finding D-40 is another such case).
 -/
 namespace Oxia.C03
 open Oxia.Repl
@@ -157,9 +162,10 @@ theorem conforms_last {G : Int → List Entry} {X : List Entry} (hc : Conforms G
   simpa using this
 
 theorem highestOfTerm_spec (L : List Entry) (t : Int) :
-    highestOfTerm L t = (-1, -1) ∨ ∃ (k : Nat) (e : Entry), highestOfTerm L t = (t, (k : Int)) ∧ L[k]? = some e ∧ e.term = t := by
+    highestOfTerm L t = (-1, -1) ∨
+    ∃ (k : Nat) (e : Entry), highestOfTerm L t = (e.term, (k : Int)) ∧ L[k]? = some e ∧ e.term ≤ t := by
   unfold highestOfTerm
-  cases hl : (L.zipIdx.filter (fun p => decide (p.1.term = t))).getLast? with
+  cases hl : (L.zipIdx.filter (fun p => decide (p.1.term ≤ t))).getLast? with
   | none => exact .inl rfl
   | some p =>
     right
@@ -214,12 +220,15 @@ theorem attachOk_truncate (F L : List Entry) (k : Int)
 theorem attachOk_refuse (F L : List Entry) : AttachOk F L .refuse :=
   ⟨fun ack he => (by cases he), fun k he => (by cases he)⟩
 
-/-- **C03 (b)** the attach decision of `truncateFollowerIfNeeded` (as found in the tree: facts) makes the
-    follower's log compatible with the leader's and starts the cursor at an offset up to which the two logs
-    are equal — given that both logs are cut from the per-term logs (`Conforms`, the log-matching
-    property), that the reported head is the follower's true head (C04) and `eh` the leader's. -/
-theorem C03_attach_compatible (G : Int → List Entry) (L F : List Entry)
-    (hL : Conforms G L) (hF : Conforms G F) (hnF : TermsNonneg F) :
+/-- **C03 (b), partial** the attach decision of `truncateFollowerIfNeeded` (as found in the tree: facts)
+    makes the follower's log compatible with the leader's and starts the cursor at an offset up to which the
+    two logs are equal — given that both logs are cut from the per-term logs (`Conforms`, the log-matching
+    property), that the reported head is the follower's true head (C04) and `eh` the leader's, and (`hcase`)
+    that the entry `getHighestEntryOfTerm` finds is of the follower's head term or does not exist. Without
+    `hcase` the statement is false: D-44 below. -/
+theorem C03_attach_compatible_partial (G : Int → List Entry) (L F : List Entry)
+    (hL : Conforms G L) (hF : Conforms G F) (hnF : TermsNonneg F)
+    (hcase : (highestOfTerm L (headOf F).1).1 = (headOf F).1 ∨ highestOfTerm L (headOf F).1 = (-1, -1)) :
     AttachOk F L (plan Cfg.good L (headOf F) (headOf L)) := by
   have hemptyT : ∀ X : List Entry, Compat [] X ∧ Acked [] X (-1) := fun X =>
     ⟨by simp [Compat, Agree], ⟨by omega, by simp, by simp, by simp [Agree]⟩⟩
@@ -239,8 +248,8 @@ theorem C03_attach_compatible (G : Int → List Entry) (L F : List Entry)
     have htF : 0 ≤ ef.term := hnF ef (List.mem_of_getElem? hef)
     have hFpos : 0 < F.length := List.length_pos_iff.2 hFe
     unfold plan
-    rw [hhF]
-    simp only []
+    rw [hhF] at hcase ⊢
+    simp only [] at hcase ⊢
     by_cases h1 : ef.term = (headOf L).1 ∧ (F.length : Int) - 1 ≤ (headOf L).2
     · -- same term as the leader's head, not longer
       rw [if_pos h1]
@@ -260,7 +269,7 @@ theorem C03_attach_compatible (G : Int → List Entry) (L F : List Entry)
       by_cases h2 : ef.term > (headOf L).1
       · rw [if_pos h2]; exact attachOk_refuse F L
       · rw [if_neg h2]
-        rcases highestOfTerm_spec L ef.term with hnone | ⟨k, e, hk, hke, hket⟩
+        rcases highestOfTerm_spec L ef.term with hnone | ⟨k, e, hk, hke, _⟩
         · -- the leader has no entry of that term: truncate to nothing
           rw [hnone]
           simp only []
@@ -272,7 +281,14 @@ theorem C03_attach_compatible (G : Int → List Entry) (L F : List Entry)
           rw [this]
           simp only [List.take_zero, List.length_nil]
           simpa using hemptyT L
-        · rw [hk]
+        · have hket : e.term = ef.term := by
+            rcases hcase with hc | hc
+            · rw [hk] at hc; exact hc
+            · rw [hk] at hc
+              have := congrArg Prod.snd hc
+              simp only [] at this
+              omega
+          rw [hk, hket]
           simp only [Cfg.good, if_true, true_and]
           have hLk : L.take (k + 1) = (G ef.term).take (k + 1) := by
             have := hL k e hke; rw [hket] at this; exact this
@@ -302,6 +318,40 @@ theorem C03_attach_compatible (G : Int → List Entry) (L F : List Entry)
               exact this
             have hlen : (F.take (k + 1)).length ≤ L.length := by simp; omega
             exact compat_acked_of_prefix _ L hF' hlen
+
+/-- **known finding D-44, the decision**: the leader holds no entry of the follower's head term (2) but
+    entries of a lower term at higher offsets; `getHighestEntryOfTerm` answers with its last entry of term
+    ≤ 2, which is offset 2 of term 1; the follower is cut *by offset* to 0..2 and keeps its own entries of
+    term 2 at offsets 1 and 2; the cursor starts at 2 (everything up to there counts as acknowledged) and
+    the stream appends offset 3 behind them -/
+theorem C03_truncation_keeps_foreign_entries :
+    let L : List Entry := [⟨1, 100⟩, ⟨1, 101⟩, ⟨1, 102⟩, ⟨3, 300⟩]
+    let F : List Entry := [⟨1, 100⟩, ⟨2, 200⟩, ⟨2, 201⟩, ⟨2, 202⟩]
+    plan Cfg.good L (headOf F) (headOf L) = .truncate 2 ∧
+    (pushLoop true L 4 10 2 { term := 4, status := .follower, ctrl := .followerC, log := F.take 3 }).1.log
+      = [⟨1, 100⟩, ⟨2, 200⟩, ⟨2, 201⟩, ⟨3, 300⟩] ∧
+    (pushLoop true L 4 10 2 { term := 4, status := .follower, ctrl := .followerC, log := F.take 3 }).2 = 3 := by decide
+
+/-- the D-44 history on the model: n0 (term 1) logs 101, 102 without a quorum; n1 (term 2, elected by
+    {n1, n2} from the log [100]) logs 200, 201, 202 without a quorum; n0 wins term 3 among {n0, n2}
+    (head (1,2) beats (1,0)), re-replicates its log and commits 300 with n2; in term 4 n1 joins -/
+def d44w0 : World := World.init 3
+def d44w1 : World := (write Cfg.good (elect Cfg.good true d44w0 0 1 [0, 1, 2] []).1 0 100).1
+def d44w2 : World := (write Cfg.good (write Cfg.good { d44w1 with cut := [0] } 0 101).1 0 102).1
+def d44w3 : World := (elect Cfg.good true d44w2 1 2 [0, 1, 2] []).1
+def d44w4 : World := (write Cfg.good (write Cfg.good (write Cfg.good { d44w3 with cut := [0, 2] } 1 200).1 1 201).1 1 202).1
+def d44w5 : World := (write Cfg.good (elect Cfg.good true { d44w4 with cut := [1] } 0 3 [0, 1, 2] []).1 0 300).1
+def d44w6 : World := (elect Cfg.good true { d44w5 with cut := [] } 0 4 [0, 1, 2] []).1
+
+/-- **known finding D-44**: after the election of term 4 the follower n1 is attached, acknowledged up to
+    offset 3 (which is committed), and holds 200 and 201 where the leader holds 101 and 102 -/
+theorem C03_follower_diverges_below_acknowledged_offset :
+    (getNode d44w5 0).commit = 3 ∧ (getNode d44w5 2).log.map (·.id) = [100, 101, 102, 300] ∧
+    (getNode d44w6 0).status = .leader ∧ (getNode d44w6 0).term = 4 ∧
+    (getNode d44w6 0).log.map (·.id) = [100, 101, 102, 300] ∧
+    (getNode d44w6 0).cursors = [(1, 3), (2, 3)] ∧
+    (getNode d44w6 1).status = .follower ∧ (getNode d44w6 1).term = 4 ∧
+    (getNode d44w6 1).log.map (·.id) = [100, 200, 201, 300] := by decide
 
 /-- necessity (the seeded change): comparing the follower's offset with the leader's election head
     instead of the leader's last entry of the follower's term lets an uncommitted tail of an old term
